@@ -85,6 +85,13 @@ def check(kind, case, rec):
         rec.label(f"length-unit={unit:g}")
     if (case["sseed"] // 4 + spec["n"][0]) % 3 == 0:
         perm = np.random.default_rng(case["sseed"] + 11).permutation(len(pts))  # old id -> new id
+        # ... and the points of one cell edge (two corners and, for quadratic cells, their mid-edge point) get the lowest numbers
+        c0 = np.asarray(mesh.cells)[case["sseed"] % mesh.ncells]
+        nvert = 2 ** dim
+        edge = [int(c0[0]), int(c0[1])] + ([int(c0[nvert])] if len(c0) > nvert else [])
+        for new_id, old in enumerate(edge):
+            other = int(np.where(perm == new_id)[0][0])
+            perm[other], perm[old] = perm[old], new_id
         newpts = np.empty_like(pts)
         newpts[perm] = pts
         mesh = fem.Mesh(newpts, perm[np.asarray(mesh.cells)], mesh.cell_type)
